@@ -48,6 +48,9 @@ Families
    (ambient autograd mode and differentiable inputs must not change the value); derivative_forms has worlds with a
    USER SUBCLASS of the option class overriding moneyness() (fx * spot / strike): the module must take current AND
    running-maximum log-moneyness through the derivative's own definition.)
+  (wave 6: every call form of price_grid and the explicit-argument calls of derivative_forms are wrapped by an argument
+   snapshot - the caller's tensors must be bitwise unchanged, class mutates_argument_* -; the python-number form runs for
+   all four products.)
   law_crosscheck    model level, no pfhedge: the two routes to the running-maximum law (Girsanov
                     quadrature over driftless Brownian motion vs textbook closed survival function), the
                     layer-cake vs density form of the lookback expectation, the homogeneity reduction
@@ -248,7 +251,24 @@ def price_grid(ctx, block):
                 raise HarnessError(f"alphabet value not representable in {dname}: {block}")
             same_tv = all(p[2] == pts[0][2] and p[3] == pts[0][3] for p in pts)
             outs = {}     # (form, K) -> list of floats
-            for form in forms:
+            pristine = [x.clone() for x in (S_, M_, T_, V_)]
+
+            def guard(form):
+                """the caller's tensors must be bitwise unchanged by every call form (restored if not)"""
+                for nm, cur, ref in zip(("log_moneyness", "max_log_moneyness", "time_to_maturity", "volatility"), (S_, M_, T_, V_), pristine):
+                    if not torch.equal(cur, ref):
+                        j = int((cur != ref).nonzero()[0])
+                        ctx.violation(site, f"mutates_argument_{nm}", f"{site} [{dname}, {form}] overwrote the caller's {nm} tensor",
+                                      observed=float(cur[j]), expected=float(ref[j]),
+                                      block=_mini(block, pts[j], strikes[0], call, dname, form), family="price_grid")
+                        cur.copy_(ref)
+
+            for form in forms + ["<end>"]:
+                if outs or form == "<end>":
+                    guard(prev_form)
+                prev_form = form
+                if form == "<end>":
+                    break
                 if form == "flat":
                     for K in (strikes if HAS_STRIKE_ARG[product] else strikes[:1]):
                         outs[(form, K)] = _as_list(call_functional(product, S_, M_, T_, V_, K, call), (n,), dtype, ctx, site, block)
@@ -323,10 +343,10 @@ def price_grid(ctx, block):
                         got = _as_list(o, (n + 2,), dtype, ctx, site, block)
                         outs[(form, K)] = None if got is None else got[:n]
                 elif form == "pyfloat":
-                    if not same_tv or product != "european":
+                    if not same_tv:
                         continue
-                    # t, v as python floats: documented for bs_european_price only (docstring example
-                    # bs_european_price(x, 1.0, 0.2)); the other signatures document tensors
+                    # t, v as python numbers (docstring example bs_european_price(x, 1.0, 0.2); every function converts them
+                    # with the dtype of the tensor arguments since fix 11b128b)
                     K = strikes[-1]
                     o = call_functional(product, S_, M_, pts[0][2], pts[0][3], K, call)
                     outs[(form, K)] = _as_list(o, (n,), dtype, ctx, site, block)
@@ -454,7 +474,8 @@ def derivative_forms(ctx, block):
     ref = call_functional(product, lm, mlm, ttm, vol, K, call)[:, live]
     names = ["log_moneyness", "max_log_moneyness", "time_to_maturity", "volatility"] if HAS_MAX[product] \
         else ["log_moneyness", "time_to_maturity", "volatility"]
-    given = {"log_moneyness": lm, "max_log_moneyness": mlm, "time_to_maturity": ttm, "volatility": vol}
+    given = {"log_moneyness": lm, "max_log_moneyness": mlm, "time_to_maturity": ttm.clone(), "volatility": vol}
+    given0 = {k: v.clone() for k, v in given.items()}
     snap = market.snapshot(deriv)
     for label, mod in mods.items():
         if type(mod).__name__ != MODULE[product]:
@@ -495,6 +516,11 @@ def derivative_forms(ctx, block):
                               f"{label}.price(None for {nn_}) != {SITE[product]} at the derivative's state "
                               f"(path {spot[r].tolist()}, step {c}, strike {K}, call {call}, sigma {sigma})",
                               observed=float(o.flatten()[i]), expected=float(ref.flatten()[i]), block=mb, family="derivative_forms")
+    for nm_, ref_ in given0.items():
+        if not torch.equal(given[nm_], ref_):
+            ctx.violation(site, f"mutates_argument_{nm_}", f"price({nm_}=tensor, ...) overwrote the caller's {nm_} tensor",
+                          observed=float(given[nm_].flatten()[0]), expected=float(ref_.flatten()[0]), block=block, family="derivative_forms")
+            given[nm_] = ref_.clone()
     # delta with every argument omitted vs an unbound module of the same class fed the harness' features
     ref_d = make_module(product, K, call).delta(*[given[nm] for nm in names])
     try:
